@@ -37,6 +37,10 @@ def split_goal(goal, hyps_extra, skolems, depth=0) -> List[Tuple[list, z3.BoolRe
         hs = []
         flatten_and(g.arg(0), hs)
         return split_goal(g.arg(1), hyps_extra + hs, skolems, depth + 1)
+    if z3.is_not(g) and (z3.is_and(g.arg(0)) or (z3.is_quantifier(g.arg(0)) and g.arg(0).is_forall())):
+        hs = []
+        flatten_and(g.arg(0), hs)
+        return [(hyps_extra + hs, z3.BoolVal(False))]
     if z3.is_app(g) and g.decl().kind() == z3.Z3_OP_ITE and g.sort() == z3.BoolSort():
         c, a, b = g.children()
         return split_goal(a, hyps_extra + [c], skolems, depth + 1) + split_goal(b, hyps_extra + [z3.Not(c)], skolems, depth + 1)
@@ -399,3 +403,15 @@ def _nth_def(S, J, nth_int):
         c, A, B = S.children()
         return [z3.Implies(c, nth_int(S, J) == nth_int(A, J)), z3.Implies(z3.Not(c), nth_int(S, J) == nth_int(B, J))]
     return []
+
+
+def ext_goal(g):
+    """Extensionality as a proof rule for integer sequences: A == B follows from equal lengths and pointwise equal
+    elements (w.r.t. the indexing symbol nth.int). Returns the replacement goal or None."""
+    from .smt import seq_nth
+    if z3.is_eq(g) and z3.is_seq(g.arg(0)) and not z3.is_string(g.arg(0)):
+        A, B = g.arg(0), g.arg(1)
+        j = z3.Int("j!ext")
+        return z3.And(z3.Length(A) == z3.Length(B),
+                      z3.ForAll([j], z3.Implies(z3.And(0 <= j, j < z3.Length(A)), seq_nth(A, j) == seq_nth(B, j))))
+    return None
